@@ -162,6 +162,27 @@ theorem Parsed.more {d blk data : List UInt8} (pre : List UInt8) (h : Parsed d b
   rw [List.append_assoc]
   exact ValidParse_more pre seqs d last _ hv
 
+/-- the compressor's dictionary `d` and the decoder's window `w` are both tails of the history: whichever is longer, the block decodes against `w`
+    provided `w` is the whole history or at least 65535 bytes -/
+theorem Parsed.of_tails {d w p pre blk data : List UInt8} (h : Parsed d blk data) (hw : p ++ d = pre ++ w) (hlen : pre = [] ∨ 65535 ≤ w.length) :
+    Parsed w blk data := by
+  rcases List.append_eq_append_iff.mp hw with ⟨a', _, ha⟩ | ⟨c', _, hc'⟩
+  · -- d = a' ++ w
+    rw [ha] at h
+    rcases hlen with hnil | hlen
+    · subst hnil
+      have : a' = [] := by
+        have h1 := congrArg List.length hw
+        have h2 := congrArg List.length ha
+        simp only [List.length_append, List.length_nil] at h1 h2
+        exact List.eq_nil_of_length_eq_zero (by omega)
+      subst this
+      simpa using h
+    · exact h.window hlen
+  · -- w = c' ++ d
+    rw [hc']
+    exact h.more c'
+
 /-- **one call on a contiguous stream**: `JS` is kept, the memory grows by the data, and a returned block decodes to the data against the
     dictionary the call used -/
 theorem call_spec (hashOf : Array UInt8 → Bool → Nat → Nat) (S0 : SState) (data : Array UInt8) (acceleration : Int) (cap : Nat) (hJ0 : JS S0) :
